@@ -133,7 +133,12 @@ inline std::string url_search_params::to_string() const {
 
 inline void url_search_params::set(const std::string_view key,
                                    const std::string_view value) {
-  const auto find = [&key](const auto& param) { return param.first == key; };
+  // The key may be a view into this very list (obtained from get() or from an
+  // iterator): compare against a copy, remove_if moves the pairs around.
+  const std::string key_copy(key);
+  const auto find = [&key_copy](const auto& param) {
+    return param.first == key_copy;
+  };
 
   auto it = std::ranges::find_if(params, find);
 
@@ -147,14 +152,20 @@ inline void url_search_params::set(const std::string_view key,
 }
 
 inline void url_search_params::remove(const std::string_view key) {
-  std::erase_if(params,
-                [&key](const auto& param) { return param.first == key; });
+  // The key may be a view into this very list: erase_if moves the pairs
+  // around while it compares, so compare against a copy.
+  const std::string key_copy(key);
+  std::erase_if(params, [&key_copy](const auto& param) {
+    return param.first == key_copy;
+  });
 }
 
 inline void url_search_params::remove(const std::string_view key,
                                       const std::string_view value) {
-  std::erase_if(params, [&key, &value](const auto& param) {
-    return param.first == key && param.second == value;
+  const std::string key_copy(key);
+  const std::string value_copy(value);
+  std::erase_if(params, [&key_copy, &value_copy](const auto& param) {
+    return param.first == key_copy && param.second == value_copy;
   });
 }
 
